@@ -128,6 +128,12 @@ func c14Build(rng *rand.Rand, nh, kmax int, big, openPipelined bool, maxTx uint3
 			}
 			queues[i] = append(queues[i], rq)
 		}
+		if rng.Intn(3) == 0 {
+			// a request that is neither READ nor WRITE between the last transfer and the CLOSE (it takes the command worker's
+			// path; the CLOSE behind it must still wait for the transfers before it)
+			rid := id()
+			queues[i] = append(queues[i], &pgReq{op: "REALPATH", typ: fxpRealpath, id: rid, frame: rawPathOp(fxpRealpath, rid, "/"), cls: pgClsCmdFree, slot: -1})
+		}
 		cid := id()
 		queues[i] = append(queues[i], &pgReq{op: "CLOSE", typ: fxpClose, id: cid, frame: rawHandleOp(fxpClose, cid, hs), cls: pgClsClose, slot: i})
 	}
@@ -225,7 +231,7 @@ func c14Content(p *c14Prog, get func(wire string) ([]byte, bool)) (bool, string)
 }
 
 func runC14(c *Ctx) {
-	c.Rule("pipelines INIT, OPEN x h (h=1..4; read / write / read+write handles), then after the handles are known the interleaved sequences (READ|WRITE)^k CLOSE per handle (k<=32) " +
+	c.Rule("pipelines INIT, OPEN x h (h=1..4; read / write / read+write handles), then after the handles are known the interleaved sequences (READ|WRITE)^k [REALPATH] CLOSE per handle (k<=32; in a third of the sequences a command request sits between the last transfer and the CLOSE) " +
 		"as raw frames without waiting for replies; request server: all ReadAt/WriteAt calls are held at gates until the next unanswered CLOSE frame has been written, then released in seeded orders; " +
 		"os-backed server: 100-250 KB transfers; allocator off/on; kind openpipe additionally pipelines the OPENs with predicted handles (there a transfer that overtakes its OPEN and is refused is tolerated, the Close clauses are still checked). " +
 		"kind hangup (os server): the same pipelines, the client half-closes right after the last frame without waiting for replies: when Serve has returned every write must be in the file and no reply received may be a failure (missing replies are C02's known finding F10, not judged). non-trivial = at least 2 transfers precede a CLOSE and (request server) at least 2 backend calls were blocked at once when gates were opened or (os) a transfer of 100000+ bytes")
